@@ -148,7 +148,11 @@ func inputPool(r *rng, n int) []input {
 				}
 				segs = append(segs, pfbSeg{byte(1 + r.intn(2)), d})
 			}
-			pool = append(pool, input{"pfb", append(pfbFrame(segs), 0x80, 3), "pfb"})
+			if r.chance(1, 3) {
+				pool = append(pool, input{"pfb", pfbFrame(segs), "pfb without end marker"})
+			} else {
+				pool = append(pool, input{"pfb", append(pfbFrame(segs), 0x80, 3), "pfb"})
+			}
 		default:
 			// an eexec program
 			body := []byte("/a 1 def /b (xyz) def 3 4 add mark currentfile closefile\n")
@@ -249,6 +253,13 @@ func suiteSched(o *suiteOut, r *rng, tier string, n int) {
 			schedCase(o, in, "one-byte+eof", &chunkedReader{data: cp(), next: func(int) int { return 1 }, eofWith: true}, base, idx)
 			schedCase(o, in, "all+eof", &chunkedReader{data: cp(), next: func(rem int) int { return rem }, eofWith: true}, base, idx)
 			schedCase(o, in, "not-seekable", notSeekable{bytes.NewReader(in.data)}, base, idx)
+		{
+			// a seekable source that does not start at offset 0 (a font inside a container file)
+			junk := []byte("JUNK-BEFORE-THE-DATA\x00\x80\x01%!")
+			sr := bytes.NewReader(append(append([]byte{}, junk...), in.data...))
+			sr.Seek(int64(len(junk)), io.SeekStart)
+			schedCase(o, in, "seekable-at-offset", sr, base, idx)
+		}
 			for k := 0; k < 3; k++ {
 				rr := newRng(r.next())
 				schedCase(o, in, fmt.Sprintf("random-%d", k), &chunkedReader{data: cp(), next: func(int) int { return pick(rr, []int{1, 2, 3, 7, 64, 511, 512, 513, 4000}) }, eofWith: rr.chance(1, 2)}, base, idx)
@@ -346,6 +357,18 @@ func suiteSched(o *suiteOut, r *rng, tier string, n int) {
 		o.emit(line, "skip", true)
 		runsLine(o, 200000, false, parts) // the same history through the Lean model
 		o.count("split executions")
+	}
+	for hi, parts := range [][]string{
+		{"%%A: 1\n1", "%%B: 2\n2"}, {"%!PS\n%%Title: t\n/a 1 def", "%%Pages: 3\n%%+ more\na", "%%EOF\n"}, {"1 2", "%%X: y\n", "add"},
+		{"%%First: a\n{ 1", "%%Inside: b\n2 add } exec", "%%Last: c\n"},
+	} {
+		whole := strings.Join(parts, "\n")
+		one := runsLine(o, 200000, false, []string{whole})
+		many := runsLine(o, 200000, false, parts)
+		if one != many {
+			o.fail("C12", "feeding a program in several Execute calls split at token boundaries equals one call (DSC comments)", fmt.Sprintf("sched split-dsc %d %q", hi, parts), one[:min(len(one), 400)], many[:min(len(many), 400)])
+		}
+		o.count("split executions with DSC comments")
 	}
 	o.notes = append(o.notes, "inputs of every kind (programs incl. eexec sections, CMaps, fonts in four formats and from the independent writer, AFM, PFB) under delivery schedules: one byte at a time, data together with EOF, random chunk sizes around the 512-byte buffer, every two-chunk split position (short inputs) or sampled positions, non-seekable source; programs fed in 2-4 Execute calls split at token boundaries (also inside open procedure bodies); oracle: identical result to the single-read run")
 }
@@ -585,6 +608,36 @@ func detOutputs(seed uint64, count int) []string {
 		out = append(out, fmt.Sprintf("cmap%d:%x", i, sha256.Sum256([]byte(runInput("cmap", bytes.NewReader(buf.Bytes()))))))
 		fd, _, _ := writeFont(f, type1.FormatPFA)
 		out = append(out, fmt.Sprintf("read%d:%x", i, sha256.Sum256([]byte(runInput("t1", bytes.NewReader(fd))))))
+		// a file defining two fonts: whatever the reader does with it, it does it every time
+		f2 := randFont(newRng(r.next()), true)
+		f2.FontInfo.FontName = "Second"
+		fd2, _, _ := writeFont(f2, type1.FormatNoEExec)
+		fd1, _, _ := writeFont(f, type1.FormatNoEExec)
+		out = append(out, fmt.Sprintf("read2fonts%d:%x", i, sha256.Sum256([]byte(runInput("t1", bytes.NewReader(append(append([]byte{}, fd1...), fd2...)))))))
+		// history: a write that fails half-way must not influence the next write
+		if i < 3 {
+			for _, ff := range allFormats {
+				good, _, _ := writeFont(f, ff)
+				for _, off := range []int{0, 1, len(good) / 3, len(good) / 2, len(good) - 600, len(good) - 300, len(good) - 40, len(good) - 1} {
+					if off < 0 {
+						continue
+					}
+					safeErr(func() error { return f.Write(&faultWriter{failCall: -1, shortAt: off}, &type1.WriterOptions{Format: ff}) })
+					again, _, _ := writeFont(f, ff)
+					if !bytes.Equal(good, again) {
+						out = append(out, fmt.Sprintf("font%d-%s-after-failed-write-at-%d:DIFFERS(%d vs %d bytes)", i, formatName(ff), off, len(good), len(again)))
+					}
+				}
+				var pb bytes.Buffer
+				f.WritePDF(&pb)
+				safeErr(func() error { _, _, err := f.WritePDF(&faultWriter{failCall: -1, shortAt: pb.Len() - 100}); return err })
+				var pb2 bytes.Buffer
+				f.WritePDF(&pb2)
+				if !bytes.Equal(pb.Bytes(), pb2.Bytes()) {
+					out = append(out, fmt.Sprintf("font%d-pdf-after-failed-write:DIFFERS", i))
+				}
+			}
+		}
 	}
 	return out
 }
@@ -596,14 +649,26 @@ func suiteDeterminism(o *suiteOut, r *rng, tier string, n int) {
 	}
 	seed := r.next() % 1000000007
 	base := detOutputs(seed, count)
+	for i, b := range base {
+		if strings.Contains(b, "DIFFERS") {
+			o.fail("C17", "writing the same font twice produces byte-identical output, whatever happened in between", fmt.Sprintf("det history %d", i), "identical", b)
+		}
+	}
 	for rep := 1; rep < reps; rep++ {
 		again := detOutputs(seed, count)
 		for i := range base {
 			line := fmt.Sprintf("det inprocess %d %d", rep, i)
-			if again[i] != base[i] {
-				o.fail("C17", "the same call twice in one process gives identical output", line, base[i], again[i])
+			got := "<missing>"
+			if i < len(again) {
+				got = again[i]
+			}
+			if got != base[i] {
+				o.fail("C17", "the same call twice in one process gives identical output", line, base[i], got)
 			}
 			o.emit(line, "skip", true)
+		}
+		if len(again) != len(base) {
+			o.fail("C17", "the same call twice in one process gives identical output", fmt.Sprintf("det inprocess %d", rep), fmt.Sprint(len(base), " outputs"), fmt.Sprint(len(again), " outputs"))
 		}
 	}
 	o.count("in-process repetitions")
